@@ -56,7 +56,8 @@ def _gen_program(sym, names, redefine):
         for k in range(2):
             it = items[sym.index(f"body_{m}{k}", len(items))]
             bodies[m].append(("mark", f"{m}{k}") if it == "mark" else ("call", it))
-    calls = [names[sym.index(f"main_call{j}", len(names))] for j in range(2)]
+    fixed = sym.shard.get("calls")
+    calls = [names[fixed[j]] if fixed is not None else names[sym.index(f"main_call{j}", len(names))] for j in range(2)]
     lines = []
     for m in names:
         lines.append(f"Macro: {m}")
@@ -130,7 +131,9 @@ def harness_generated(sym):
 def _shards_generated(tier):
     if tier == "quick":
         return [{"names": ["A", "B"], "redefine": r} for r in (False, True)]
-    return [{"names": ["A", "B", "C"], "redefine": r} for r in (False, True)] + [{"names": ["A", "B"], "redefine": r} for r in (False, True)]
+    # 3 macros: one shard per pair of top-level calls (4096 call graphs each)
+    return ([{"names": ["A", "B", "C"], "redefine": r, "calls": [i, j]} for r in (False, True) for i in range(3) for j in range(3)]
+            + [{"names": ["A", "B"], "redefine": r} for r in (False, True)])
 
 
 EDIT_PCODE = "Macro: X\n    Mark: X1\n    Wait: 0.5s\n    Mark: X2\nMark: M1\nCall macro: X\nMark: M2\nCall macro: X\nMark: END\n"
